@@ -96,6 +96,24 @@ template<typename S> static void update_item(S& s, int kind, const Line& t, size
   }
 }
 
+static void compare_big(const sk_t& a, const sk_t& b, Out& o) {
+  if (a.get_current_mode() != HLL || b.get_current_mode() != HLL || a.get_target_type() != HLL_8 || b.get_target_type() != HLL_8)
+    throw std::logic_error("compare_big wants two HLL_8 sketches in HLL mode");
+  const auto& x = static_cast<const HllArray<A>*>(a.sketch_impl)->getHllArray();
+  const auto& y = static_cast<const HllArray<A>*>(b.sketch_impl)->getHllArray();
+  o.R(a.get_lg_config_k()); o.R(b.get_lg_config_k());
+  uint64_t below = 0, above = 0; long first = -1;
+  if (x.size() == y.size()) {
+    for (size_t i = 0; i < x.size(); ++i) {
+      if (x[i] < y[i]) ++below; else if (x[i] > y[i]) ++above; else continue;
+      if (first < 0) first = (long)i;
+    }
+  }
+  o.R((I)below); o.R((I)above); o.R(first);
+  o.R(first >= 0 ? x[(size_t)first] : 0); o.R(first >= 0 ? y[(size_t)first] : 0);
+  o.R(a.is_empty() ? 1 : 0); o.R(b.is_empty() ? 1 : 0); o.R((int)a.get_current_mode());
+}
+
 static double call_getter(const un_t& u, int g) {
   switch (g) {
   case 0: return u.get_estimate();
@@ -192,6 +210,21 @@ static void handler(const Line& t, Out& o) {
       o.Fd(first); o.Fd(after);
     }
     o.R(1); break; }
+  case 21: { // big-configuration comparison, done here because 2^17..2^21 registers do not fit a transcript line:
+             // get_result(HLL_8) of union u against the CONTROL sketch r (an HLL_8 hll_sketch of the expected lg_k that was fed
+             // every item directly): 21 u r -> R lg_k(result) lg_k(control) #slots_below #slots_above first_bad_slot its_value
+             //                                 control_value is_empty(result) is_empty(control) mode(result)
+    un_t& u = getu(t.at(1));
+    sk_t res = u.get_result(HLL_8);
+    sk_t& c = get(t.at(2));
+    compare_big(res, c, o);
+    o.R(u.get_lg_config_k());
+    break; }
+  case 22: { // the same between the results of two unions: 22 u u2
+    sk_t r1 = getu(t.at(1)).get_result(HLL_8);
+    sk_t r2 = getu(t.at(2)).get_result(HLL_8);
+    compare_big(r1, r2, o);
+    break; }
   default: o.R(-2);
   }
 }
